@@ -505,7 +505,14 @@ class Enumerator:
             return m(e)
         # generic: evaluate sub-expressions in order, then produce value canon
         subs = self.subexprs(e)
-        branching = k in ("Call", "MethodCall") and any(peel(s_).get("k") in ("If", "Match") for s_ in subs)
+        def _has_branch(x, depth=0):
+            x = peel(x)
+            if x.get("k") in ("If", "Match"):
+                return True
+            if depth > 3 or x.get("k") not in ("Call", "MethodCall", "Tup"):
+                return False
+            return any(_has_branch(y, depth + 1) for y in self.subexprs(x))
+        branching = k in ("Call", "MethodCall", "Tup") and any(_has_branch(s_) for s_ in subs)
         if branching:
             # an argument chosen by `if` / `match`: the call is made with the value of the branch taken
             states = [([], [])]          # (events, argument values)
@@ -524,6 +531,10 @@ class Enumerator:
                             nxt.append((evs + o.events, vals + [o.val]))
                 states = nxt
             for evs, vals in states:
+                if k == "Tup":
+                    v = "(%s)" % ",".join(vals)
+                    res.append(PathOut(evs, "fall", v, valnode=e))
+                    continue
                 if k == "MethodCall":
                     v = "%s.%s(%s)" % (vals[0], e["name"], ",".join(vals[1:]))
                 else:
